@@ -202,7 +202,10 @@ class Exec:
     # ------------------------------------------------------------------ symbolic inputs
     def mk(self, t: ty.T, name: str, register=True):
         if isinstance(t, ty.TConcrete):
-            return t.value
+            v = t.value
+            if isinstance(v, (dict, list, set)):
+                return type(v)(v)  # a fresh container per path: the code under verification may mutate it
+            return v
         if isinstance(t, (ty.TInt, ty.TBool, ty.TStr, ty.TReal)):
             c = z3.Const(name, sort_of(t))
             if register:
